@@ -6,7 +6,7 @@ from ..model import FuncInfo, canon
 from ..engine import Engine, V, State, NOCONST
 from ..algdom import AlgDomain
 from ..algebra import UNKNOWN, Poly, SExpr, Vec, Lin, A
-from .. import astutil
+from .. import astutil, guards
 from .common import site
 from .c20 import _gram_equals_M, _pinv_form
 
@@ -262,6 +262,33 @@ def rule_rca(repo, rep):
         detail = 'rows %s are shifted by %s' % (tgt, ast.unparse(val))
   rep.add(R, 'rca._chunk_mean_centering:own-mean',
           'derived' if ok else 'refuted', site(f), '' if ok else detail)
+  # every chunk id is visited: range(max id + 1) or the distinct ids
+  Rl = 'R-FORM:rca-every-chunk-centred'
+  rep.rule(Rl, 'the centring loop visits every chunk id present: '
+           'range(chunks.max() + 1) or a loop over the distinct ids')
+  loops_ = [n for n in ast.walk(f.node) if isinstance(n, ast.For)]
+  ncd = [v for (n, v) in guards.assignments(f.node, 'n_chunks')
+         if v is not None]
+  if loops_:
+    it = ast.unparse(loops_[0].iter)
+    ok_l = None
+    if it.startswith('range(') and ncd:
+      d_ = ast.unparse(ncd[0])
+      if d_ in ('chunks.max() + 1', 'chunk_labels.max() + 1',
+                'np.max(chunks) + 1', 'int(chunks.max()) + 1'):
+        ok_l = True
+      elif 'unique' in d_ or 'len(' in d_:
+        ok_l = False
+    elif 'np.unique(' in it:
+      ok_l = True
+    if ok_l is None:
+      rep.unknown(Rl, 'rca._chunk_mean_centering:loop', site(f, loops_[0]),
+                  'loop over %s not recognised' % it)
+    else:
+      rep.add(Rl, 'rca._chunk_mean_centering:loop', 'derived' if ok_l else
+              'refuted', site(f, loops_[0]), '' if ok_l else 'the loop runs '
+              'over range(%s): chunk ids with gaps (e.g. {0, 3, 9}) are '
+              'never centred' % ast.unparse(ncd[0]))
   masks = [ast.unparse(n.value) for n in ast.walk(f.node)
            if isinstance(n, ast.Assign) and
            isinstance(n.targets[0], ast.Name) and
